@@ -70,7 +70,7 @@ CLAIMED["C04"] = dict(
         "stream); theorems: scanner keeps letters / counts punctuation as gaps; reading FASTA or Clustal presentations (any widths, blank lines, gap glyphs, padding, junk lines) "
         "yields the same names and residues; formats agree; letter histogram and detected kind depend on residues only. Oracle: real runs on re-presentations (gap densities to 50 "
         "per residue, widths, Clustal/MSF renderings, 2..5 files) vs the plain FASTA run. "
-        "kalignFile_presentation_independent states the property for the whole-program model kalignFile (readers, dealign, kalignRun stages, writers), tied to kalign_read_input/kalign_run/kalign_write_msa and the CLI's run_kalign() byte-for-byte by the kalign_file correspondence.",
+        "kalignFile_presentation_independent states the property for the whole-program model kalignFile (readers, dealign, kalignRun stages, writers), tied to kalign_read_input/kalign_run/kalign_write_msa and the CLI's run_kalign() byte-for-byte by the kalign_file correspondence. Format sniffing after repair 8e76171 (Props/C04Sniff): the first hint line decides; C04_fasta_sniffed / C04_clu_sniffed / C04_msf_sniffed, Presents.fasta_sniffed; the pre-repair rule kept as detectFormatOld with decide-witnesses.",
    note="MSF headers: proved for an explicit grammar of header lines (free text, any Name:/Len:/Check:/Weight: layout; msfHeader_grammar, read_msf_presentation) that covers "
         "what kalign writes and PileUp-style headers; names > 255 bytes / with blanks / a `//` inside a name line are outside it. Several files: read_split_files / "
         "split_same_as_one_file under the explicit class hypothesis that is the recorded finding C04-split-class.",
